@@ -88,7 +88,7 @@ def run_config(fn, params, cfg_key, seed=0, tier="quick", options=None, max_path
     tags = set()
     stubset = set()
     first = True
-    budget = opts.get("budget_s", 150 if tier == "quick" else 1500)
+    budget = opts.get("budget_s", 150 if tier == "quick" else 900)
     while queue:
         if time.time() - t0 > budget and res["paths"] >= 1:
             res["paths_incomplete"] += len(queue)
@@ -142,6 +142,20 @@ def run_config(fn, params, cfg_key, seed=0, tier="quick", options=None, max_path
         res["paths"] += 1
         if ctx.on_witness:
             res["paths_witnessed"] += 1
+        if first:
+            # vacuity guard + translation validation of the stub contracts, once per configuration
+            try:
+                v = D.consistent(ctx)
+                res["vacuity_ok"] = v != "unsat"
+                if v == "unsat":
+                    res["engine_errors"].append("assumptions + path condition are contradictory (every obligation would be vacuously true)")
+                if ctx.on_witness:
+                    wr, wtag = D.witness_contract_residual(ctx)
+                    res["witness_contract_residual"] = wr
+                    if wr is not None and wr > 1e-6:
+                        res["engine_errors"].append(f"a stub contract does not hold for what the real routine returned at the witness (residual {wr:.2e} in '{wtag}')")
+            except Exception as e:  # noqa
+                res["notes"].append(f"vacuity guard failed to run: {e}")
         for a in ctx.assumptions:
             tags.add(a.tag.split("#")[0].split(":")[-1].strip() if ":" in a.tag else a.tag)
         for s in ctx.stub_log:
